@@ -138,16 +138,19 @@ def _run_unit_once(unit_name, unit_path, workdir, repo, rlimit, extra_args, time
         fn = enclosing_fn(ex, gl)
         clause_label = None
         clause_origin = None
-        for s in sec + prim:
-            l = s['line_start']
-            # search the clause line and up to 3 lines above for a [label]
-            for k in range(l, max(l - 4, 0), -1):
+        # the clause that failed is the span Verus marks "failed this postcondition / precondition /
+        # invariant"; for assertion failures and arithmetic checks it is the primary span itself.
+        # Only the lines of THAT span are searched for a `// [label]` (never neighbouring clauses).
+        marked = [sp for sp in sec + prim if sp.get('label') and 'failed' in (sp.get('label') or '')]
+        cands = marked if marked else prim
+        for sp in cands:
+            for k in range(sp['line_start'], sp.get('line_end', sp['line_start']) + 1):
                 lab = label_of(ex.out.lines[k - 1]) if 0 < k <= len(ex.out.lines) else None
                 if lab:
                     clause_label = lab
+                    clause_origin = ex.out.origin[k - 1]
                     break
             if clause_label:
-                clause_origin = ex.out.origin[l - 1]
                 break
         kind = slug(msg)
         low = msg.lower()
